@@ -8,7 +8,7 @@ DEFAULTS = dict(
     p_sel=.4, p_merge=.2, p_merge_back=0., p_edges_late=0., p_cycle=.12, p_multi_start=.15, p_multi_choice=.1,
     p_opt_existing=.15, p_single_opt=.06, p_dup_id=0.0,
     n_incompat=(0, 2), p_incompat=.5,
-    p_constraint=0.0, n_conn=(0, 0), p_grp=.3, p_excl=.3, p_conn_cond=.6, p_side_cond=0., p_grp_open=0., max_side=3, max_side_total=5,
+    p_constraint=0.0, n_conn=(0, 0), p_grp=.3, p_excl=.3, p_conn_cond=.6, p_side_cond=0., p_grp_open=0., p_grp_twin=0., max_side=3, max_side_total=5,
     n_dv=(0, 0), p_dv_cond=.6, p_dv_link=.0, p_dv_dup_label=0., p_dv_option=0., n_metric=(0, 0), p_metric_below_conn=0.,
     exotic=False, allow=(), forbid=(),
 )
@@ -159,6 +159,11 @@ def _grow(rnd, o):
                         alpha = DEG_ALPHABET if o['p_grp_open'] > 0 and rnd.random() < o['p_grp_open'] \
                             else DEG_ALPHABET[:9]
                         members.append(new('conn', prefix, deg=rnd.choice(alpha), rep=rnd.random() < .5))
+                    if o['p_grp_twin'] > 0 and len(members) == 2 and rnd.random() < o['p_grp_twin']:
+                        # twins: the same degrees, but only one of the two accepts parallel connections
+                        by_id = {n_['id']: n_ for n_ in nodes}
+                        by_id[members[1]]['deg'] = dict(by_id[members[0]]['deg'])
+                        by_id[members[1]]['rep'] = not by_id[members[0]]['rep']
                     g = new('grp', 'G')
                     entries.append({'grp': g, 'members': members})
                     names.append(g)
@@ -372,6 +377,8 @@ def gen_necessary_conflict(rnd):
     incompatibility between X and an option of ANOTHER choice: that option is never admissible, but nothing shows it
     before one of the two choices is taken.  Node names and decision ids are drawn so that both name orders of the
     incompatible pair and both decision orders of the two choices occur."""
+    if rnd.random() < .4:
+        return _necessary_conflict_nested(rnd)
     n = rnd.randint(2, 3)
     keys = rnd.sample(['A', 'B', 'C', 'D'], n)
     nodes = [{'id': 'S', 'kind': 'named'}]
@@ -449,5 +456,63 @@ def gen_group_conditional(rnd):
     flip = rnd.random() < .3
     conn = [{'id': 'K', 'src': tgts if flip else grp_side, 'tgt': grp_side if flip else tgts, 'exclude': []}]
     sel = [{'key': 'X', 'id': 'X', 'origin': 'Root', 'options': opts}]
+    return {'nodes': nodes, 'edges': edges, 'sel': sel, 'incompat': [], 'constraints': [], 'conn': conn,
+            'start': ['Root']}
+
+
+def _necessary_conflict_nested(rnd):
+    """Variant: the choice whose every option derives X is itself NESTED below an option B of a first choice, and X is
+    incompatible with an option U of a second, permanent choice: U rules out B (B needs X whatever is taken below it)
+    but B alone does not show that it rules out U -- a one-directional influence between two choices.  An ordinary
+    option-option incompatibility between the same two choices is usually added, which makes them mutually coupled."""
+    k1, k2, k3 = rnd.sample(['A', 'B', 'C', 'D', 'E'], 3)
+    nodes = [{'id': i, 'kind': 'named'} for i in ('S', 'Slot0', 'Slot1')]
+    edges = [['S', 'Slot0'], ['S', 'Slot1']]
+    p1, p2 = rnd.choice('GKMP'), rnd.choice('RTV')
+    o1 = ['%s1_%d' % (p1, j) for j in range(rnd.randint(2, 3))]      # options of the first choice; the last one is B
+    o2 = ['%s2_%d' % (p2, j) for j in range(rnd.randint(2, 3))]      # options of the second choice; the last one is U
+    o3 = ['W%d' % j for j in range(rnd.randint(2, 3))]
+    x = rnd.choice(['B_shared', 'Common', 'Zshared', 'Xnode'])
+    nodes += [{'id': i, 'kind': 'named'} for i in o1 + o2 + o3 + [x]]
+    sel = [{'key': k1, 'id': k1, 'origin': 'Slot0', 'options': o1},
+           {'key': k2, 'id': k2, 'origin': 'Slot1', 'options': o2},
+           {'key': k3, 'id': k3, 'origin': o1[-1], 'options': o3}]
+    derive = list(o3)
+    if rnd.random() < .2:
+        derive.pop(rnd.randrange(len(derive)))
+    edges += [[o, x] for o in derive]
+    incompat = [[o2[-1], x] if rnd.random() < .5 else [x, o2[-1]]]
+    if rnd.random() < .75:
+        incompat.append([o1[0], o2[0]])
+    if rnd.random() < .3:
+        nodes.append({'id': 'Below', 'kind': 'named'})
+        edges.append([o2[0], 'Below'])
+    return {'nodes': nodes, 'edges': edges, 'sel': sel, 'incompat': incompat, 'constraints': [], 'conn': [],
+            'start': ['S']}
+
+
+def gen_conn3_simple(rnd):
+    """Three independent connection choices that are always feasible together: each a single source taking exactly one
+    connection to one of two or three optional targets (a few variations in degree), optionally next to a selection
+    choice.  Every combination of their values is an architecture, so anything keyed on "what was applied before" is
+    exercised by vectors that differ in the first choice only."""
+    nodes = [{'id': 'Root', 'kind': 'named'}]
+    edges, conn, sel = [], [], []
+    for k in range(3):
+        s_ = 'S%d' % k
+        nodes.append({'id': s_, 'kind': 'conn', 'deg': rnd.choice([{'list': [1]}, {'list': [1]}, {'list': [1, 2]}]),
+                      'rep': False})
+        edges.append(['Root', s_])
+        tg = []
+        for j in range(rnd.randint(2, 3)):
+            t_ = 'T%d%s' % (k, 'abc'[j])
+            nodes.append({'id': t_, 'kind': 'conn', 'deg': {'list': [0, 1]}, 'rep': False})
+            edges.append(['Root', t_])
+            tg.append(t_)
+        conn.append({'id': 'K%d' % k, 'src': [s_], 'tgt': tg, 'exclude': []})
+    if rnd.random() < .4:
+        nodes += [{'id': i, 'kind': 'named'} for i in ('Slot', 'P', 'Q')]
+        edges.append(['Root', 'Slot'])
+        sel.append({'key': 'C', 'id': 'C', 'origin': 'Slot', 'options': ['P', 'Q']})
     return {'nodes': nodes, 'edges': edges, 'sel': sel, 'incompat': [], 'constraints': [], 'conn': conn,
             'start': ['Root']}
